@@ -25,6 +25,7 @@ pub const TARGETS: &[Target] = &[
     ("gate", "Gate", gate as Gen),
     ("gatesig", "GateSig", gatesig as Gen),
     ("gatereg", "GateReg", gatereg as Gen),
+    ("gatetab", "GateTab", gatetab as Gen),
 ];
 
 type R = Result<String, String>;
@@ -47,8 +48,58 @@ fn lit_ident(s: &str) -> String {
     format!("([{}] /- {:?} -/)", cps.join(", "), s)
 }
 
+/// Replace every free occurrence of a parameter name by the argument
+/// expression (inlining of a helper whose body is a single expression /
+/// statement; arguments are side-effect-free values, so substitution is what
+/// the call computes).
+struct Subst<'a>(&'a std::collections::HashMap<String, Expr>);
+impl syn::visit_mut::VisitMut for Subst<'_> {
+    fn visit_expr_mut(&mut self, e: &mut Expr) {
+        if let Expr::Path(p) = e {
+            if p.qself.is_none() && p.path.segments.len() == 1 {
+                if let Some(r) = self.0.get(&p.path.segments[0].ident.to_string()) {
+                    *e = r.clone();
+                    return;
+                }
+            }
+        }
+        syn::visit_mut::visit_expr_mut(self, e);
+    }
+}
+
+/// names bound by patterns below a node (a helper that re-binds one of its
+/// parameters is not inlined)
+#[derive(Default)]
+struct Binders(Vec<String>);
+impl<'ast> syn::visit::Visit<'ast> for Binders {
+    fn visit_pat_ident(&mut self, p: &'ast syn::PatIdent) {
+        self.0.push(p.ident.to_string());
+        syn::visit::visit_pat_ident(self, p);
+    }
+}
+
+/// parameter names of a function signature (receiver skipped); `None` if a parameter is not a plain name
+fn param_names(sig: &syn::Signature) -> Option<Vec<String>> {
+    sig.inputs
+        .iter()
+        .filter_map(|a| match a {
+            syn::FnArg::Receiver(_) => None,
+            syn::FnArg::Typed(pt) => Some(match &*pt.pat {
+                Pat::Ident(i) if i.subpat.is_none() => Some(i.ident.to_string()),
+                _ => None,
+            }),
+        })
+        .collect()
+}
+
 #[derive(Default)]
 struct Tr {
+    /// private helper functions of the file whose body is a single expression:
+    /// name ↦ (parameters, body); a call to one is translated as its body with
+    /// the arguments substituted (`global_type_name("Verdict")` ↦ the
+    /// `ResolvedName { … }` literal it returns)
+    helpers: std::collections::HashMap<String, (Vec<String>, Expr)>,
+    inline_depth: usize,
     /// `let NAME: TypeId = TypeId::of::<T>();`
     consts: Vec<(String, String)>,
     /// arms `x if x == K => "name"` of the leaf table, in source order
@@ -187,6 +238,16 @@ impl Tr {
                         self.val(&c.args[1])?
                     ),
                     ("Vec::new", 0) => "[]".into(),
+                    (f, n) if self.helpers.get(f).is_some_and(|h| h.0.len() == n) && self.inline_depth < 4 => {
+                        let (params, body) = self.helpers[f].clone();
+                        let map: std::collections::HashMap<String, Expr> = params.into_iter().zip(c.args.iter().cloned()).collect();
+                        let mut body = body;
+                        syn::visit_mut::VisitMut::visit_expr_mut(&mut Subst(&map), &mut body);
+                        self.inline_depth += 1;
+                        let v = self.val(&body);
+                        self.inline_depth -= 1;
+                        v?
+                    }
                     _ => return Err(format!("unsupported call `{}`", toks(e))),
                 }
             }
@@ -670,9 +731,9 @@ impl<'ast> syn::visit::Visit<'ast> for ForceArms {
                     self.bad.push(format!("unsupported pattern `{pat}` on a resolved verdict side"));
                     return;
                 };
-                let body = toks(&i.then_branch).replace(['{', '}'], "");
+                let body = toks(&i.then_branch).replace(['{', '}'], "").replace(",)", ")");
                 let want_prefix = format!("self.unify(&Type::{head}({var}),&Type::");
-                let want_suffix = "(),f.ident.id,None,).unwrap();";
+                let want_suffix = "(),f.ident.id,None).unwrap();";
                 let forced = body.strip_prefix(&want_prefix).and_then(|s| s.strip_suffix(want_suffix));
                 match forced {
                     Some(f) if i.else_branch.is_none() && f.chars().all(|c| c.is_alphanumeric() || c == '_') => {
@@ -695,8 +756,41 @@ fn force_filtermap(repo: &Path) -> Result<Vec<(String, String, String)>, String>
     require(&body, "let signature = self.type_info.function_signature(&f.ident); let return_type = signature.return_type;", "force_filtermap_types")?;
     require(&body, "let Type::Name(TypeName { name: _, arguments }) = &return_type else {", "force_filtermap_types")?;
     require(&body, "let [a, r] = &arguments[..] else {", "force_filtermap_types")?;
+    // a statement `self.<m>(args);` where `<m>` is a method of the type checker whose body is one
+    // `if let … = self.resolve_type(<parameter>) { … }` statement is that statement with the arguments
+    // substituted (the two forcing blocks extracted into a helper called once per side)
+    let mut block = f.block.clone();
+    let tc_file = &tc;
+    struct Inline<'a> {
+        file: &'a syn::File,
+    }
+    impl syn::visit_mut::VisitMut for Inline<'_> {
+        fn visit_block_mut(&mut self, b: &mut syn::Block) {
+            for st in b.stmts.iter_mut() {
+                let Stmt::Expr(Expr::MethodCall(mc), Some(_)) = st else { continue };
+                if toks(&mc.receiver) != "self" {
+                    continue;
+                }
+                let Ok(h) = find::func(self.file, &mc.method.to_string(), Some("TypeChecker")) else { continue };
+                let (Some(params), [Stmt::Expr(body @ Expr::If(i), _)]) = (param_names(&h.sig), &h.block.stmts[..]) else { continue };
+                let on_param = matches!(&*i.cond, Expr::Let(l) if params.iter().any(|p| toks(&l.expr) == format!("self.resolve_type({p})")));
+                let mut bs = Binders::default();
+                syn::visit::Visit::visit_expr(&mut bs, body);
+                if !on_param || params.len() != mc.args.len() || bs.0.iter().any(|x| params.contains(x)) {
+                    continue;
+                }
+                let map: std::collections::HashMap<String, Expr> = params.into_iter().zip(mc.args.iter().cloned()).collect();
+                let mut body = body.clone();
+                syn::visit_mut::VisitMut::visit_expr_mut(&mut Subst(&map), &mut body);
+                *st = Stmt::Expr(body, None);
+            }
+            syn::visit_mut::visit_block_mut(self, b);
+        }
+    }
+    syn::visit_mut::VisitMut::visit_block_mut(&mut Inline { file: tc_file }, &mut block);
+    let body = toks(&block);
     let mut v = ForceArms::default();
-    syn::visit::Visit::visit_block(&mut v, &f.block);
+    syn::visit::Visit::visit_block(&mut v, &block);
     if let Some(b) = v.bad.first() {
         return Err(format!("force_filtermap_types: {b}"));
     }
@@ -861,6 +955,21 @@ fn gate(repo: &Path) -> R {
         return Err(format!("check_roto_type: unexpected parameters {params:?}"));
     }
     let mut tr = Tr::default();
+    // single-expression helpers of the file (never the gate itself)
+    for it in &file.items {
+        let syn::Item::Fn(h) = it else { continue };
+        let name = h.sig.ident.to_string();
+        if name.starts_with("check_roto_type") {
+            continue;
+        }
+        if let ([Stmt::Expr(body, None)], Some(params)) = (&h.block.stmts[..], param_names(&h.sig)) {
+            let mut b = Binders::default();
+            syn::visit::Visit::visit_expr(&mut b, body);
+            if !b.0.iter().any(|x| params.contains(x)) {
+                tr.helpers.insert(name, (params, body.clone()));
+            }
+        }
+    }
     let body = tr.function(&f.block.stmts)?;
     if tr.leaf_arms.is_empty() {
         return Err("leaf-name guard table not found".into());
@@ -876,16 +985,28 @@ fn gate(repo: &Path) -> R {
     let (def, arities) = func_macro(&file)?;
     require(&def, "impl<$($a,)*$r>RotoFunc for fn($($a,)*)->$r where $($a:Value,)*$r:Value", "func! impl header")?;
     require(&def, "type Return=$r;", "func! Return type")?;
-    let p1 = pos(
-        &def,
-        "fn check_args(type_info:&mut TypeInfo,ty:&[Type])->Result<(),FunctionRetrievalError>{let[$($a),*]=ty else{let x:&[()]=&[$(unit!($a)),*];return Err(FunctionRetrievalError::IncorrectNumberOfArguments{expected:ty.len(),got:x.len(),});};",
-        "check_args arity test",
-    )?;
-    let p2 = pos(
-        &def,
-        "let mut i=0;$(i+=1;check_roto_type_reflect::<$a>(type_info,$a).map_err(|e|FunctionRetrievalError::TypeMismatch(format!(\"argument{i}\"),e))?;)*Ok(())}",
-        "check_args per-argument loop",
-    )?;
+    // the arity test: `let [$($a),*] = ty else { let <x>: &[()] = &[$(unit!($a)),*]; return Err(IncorrectNumberOfArguments { expected: ty.len(), got: <x>.len() }) };`
+    // (the name of the unit slice is free)
+    let head = "fncheck_args(type_info:&mutTypeInfo,ty:&[Type])->Result<(),FunctionRetrievalError>{let[$($a),*]=tyelse{let";
+    let def_n = def.replace(['\n', ' '], "");
+    let p1 = pos(&def_n, head, "check_args arity test")?;
+    let after = &def_n[p1 + head.len()..];
+    let local: String = after.chars().take_while(|c| c.is_alphanumeric() || *c == '_').collect();
+    let want = format!("{local}:&[()]=&[$(unit!($a)),*];returnErr(FunctionRetrievalError::IncorrectNumberOfArguments{{expected:ty.len(),got:{local}.len(),}});}};");
+    if local.is_empty() || !after.starts_with(&want) {
+        return Err(format!("check_args arity test: after the slice pattern expected `let x: &[()] = &[$(unit!($a)),*]; return Err(IncorrectNumberOfArguments {{ expected: ty.len(), got: x.len() }})`, found `{}`", &after[..after.len().min(200)]));
+    }
+    // the per-argument loop, with either spelling of "return the mismatch of the first argument that fails"
+    let loop_a = "letmuti=0;$(i+=1;check_roto_type_reflect::<$a>(type_info,$a).map_err(|e|FunctionRetrievalError::TypeMismatch(format!(\"argument{i}\"),e))?;)*Ok(())}";
+    let loop_b = "letmuti=0;$(i+=1;ifletErr(e)=check_roto_type_reflect::<$a>(type_info,$a){returnErr(FunctionRetrievalError::TypeMismatch(format!(\"argument{i}\"),e));})*Ok(())}";
+    let p2 = match (def_n.matches(loop_a).count(), def_n.matches(loop_b).count()) {
+        (1, 0) => def_n.find(loop_a).unwrap(),
+        (0, 1) => def_n.find(loop_b).unwrap(),
+        _ => return Err("check_args per-argument loop: expected `let mut i = 0; $( i += 1; check_roto_type_reflect::<$a>(type_info, $a) … TypeMismatch(format!(\"argument {i}\"), e) … )* Ok(())` (with `.map_err(..)?` or `if let Err(e) = .. { return Err(..) }`)".into()),
+    };
+    if p1 + head.len() + want.len() != p2 {
+        return Err("check_args: statements between the arity test and the argument loop".into());
+    }
     if p1 >= p2 {
         return Err("check_args: arity test must precede the argument loop".into());
     }
@@ -899,9 +1020,27 @@ fn gate(repo: &Path) -> R {
     // stands at the top level is a plain `let` that can neither leave the
     // function nor branch. So every request runs every check, whatever was
     // asked before.
+    // the variable that holds the qualified name (`name`, shadowing the parameter, or any other)
+    let qn: String = gf
+        .block
+        .stmts
+        .iter()
+        .find_map(|st| match st {
+            Stmt::Local(l) if l.init.as_ref().is_some_and(|i| toks(&i.expr) == "format!(\"pkg.{name}\")") => match &l.pat {
+                Pat::Ident(i) if i.subpat.is_none() && i.by_ref.is_none() => Some(i.ident.to_string()),
+                _ => None,
+            },
+            _ => None,
+        })
+        .ok_or("get_function: no `let <qualified> = format!(\"pkg.{name}\");`")?;
+    // the lookup: `.ok_or_else(|| DoesNotExist {..})?` or `let Some(..) = .. else { return Err(DoesNotExist {..}) }`
+    let lookup_a = format!("let function_info = self.functions.get(&{qn}).ok_or_else(|| {{ FunctionRetrievalError::DoesNotExist {{");
+    let lookup_b = format!("let Some(function_info) = self.functions.get(&{qn}) else {{ return Err(FunctionRetrievalError::DoesNotExist {{");
+    let lookup = if gf.block.stmts.iter().any(|st| toks(st).starts_with(&lookup_b.replace(' ', ""))) { lookup_b } else { lookup_a };
+    let prefix = format!("let {qn} = format!(\"pkg.{{name}}\");");
     let steps = [
-        ("prefix", "let name = format!(\"pkg.{name}\");"),
-        ("lookup", "let function_info = self.functions.get(&name).ok_or_else(|| { FunctionRetrievalError::DoesNotExist {"),
+        ("prefix", prefix.as_str()),
+        ("lookup", lookup.as_str()),
         ("bind", "let sig = &function_info.signature;"),
         ("requireSignature", "let Some(sig) = &sig else { return Err(FunctionRetrievalError::DoesNotExist {"),
         ("checkArgs", "F::check_args(&mut self.type_info, &sig.parameter_types)?;"),
@@ -951,6 +1090,13 @@ fn gate(repo: &Path) -> R {
     syn::visit::Visit::visit_block(&mut sv, &gf.block);
     if let Some(bad) = sv.other.first() {
         return Err(format!("get_function: use of `self` outside the model: `{bad}`"));
+    }
+
+    // `Package::get_function` is the module's, unchanged: no other table, no renaming, no fallback
+    let pl = find::parse(repo, "src/pipeline.rs")?;
+    let pg = find::func(&pl, "get_function", Some("Package"))?;
+    if toks(&pg.block) != "{self.module.get_function(name)}" {
+        return Err(format!("Package::get_function: expected `self.module.get_function(name)`, found `{}`", toks(&pg.block)));
     }
 
     // ---- type identity: `Type::named` builds a name in the GLOBAL scope, and
@@ -1064,4 +1210,459 @@ fn gatereg(repo: &Path) -> R {
     out.push_str(&shapes.iter().map(|(a, b, c)| format!("  ({}, {}, {:?})", lit_ident(a), lit_ident(b), c)).collect::<Vec<_>>().join(",\n"));
     out.push_str("]\n\nend RotoV.Gen.GateReg\n");
     Ok(out)
+}
+
+// ------------------------------------------------------------------ gatetab
+
+/// is the item (or statement) compiled only with the feature `verif-hooks`?
+fn is_hook(attrs: &[syn::Attribute]) -> bool {
+    attrs.iter().any(|a| a.path().is_ident("cfg") && toks(&a.meta).contains("verif-hooks"))
+}
+
+fn flat_tokens(ts: proc_macro2::TokenStream, out: &mut Vec<String>) {
+    for tt in ts {
+        match tt {
+            proc_macro2::TokenTree::Group(g) => {
+                let (o, c) = match g.delimiter() {
+                    proc_macro2::Delimiter::Parenthesis => ("(", ")"),
+                    proc_macro2::Delimiter::Brace => ("{", "}"),
+                    proc_macro2::Delimiter::Bracket => ("[", "]"),
+                    proc_macro2::Delimiter::None => ("", ""),
+                };
+                out.push(o.into());
+                flat_tokens(g.stream(), out);
+                out.push(c.into());
+            }
+            other => out.push(other.to_string()),
+        }
+    }
+}
+
+/// every struct literal `…::<ty>::<variant> { … }` below a node: the text of its field `field`
+struct StructLits<'a> {
+    ty: &'a str,
+    variant: &'a str,
+    field: &'a str,
+    found: Vec<String>,
+}
+impl<'ast> syn::visit::Visit<'ast> for StructLits<'_> {
+    fn visit_expr_struct(&mut self, s: &'ast syn::ExprStruct) {
+        let segs: Vec<String> = s.path.segments.iter().map(|x| x.ident.to_string()).collect();
+        let n = segs.len();
+        if n >= 1 && segs[n - 1] == self.variant && (self.ty.is_empty() || (n >= 2 && segs[n - 2] == self.ty)) {
+            let f = s.fields.iter().find(|f| f.member.to_token_stream().to_string() == self.field);
+            self.found.push(f.map(|f| toks(&f.expr)).unwrap_or_else(|| "<absent>".into()));
+        }
+        syn::visit::visit_expr_struct(self, s);
+    }
+}
+
+fn struct_lits(block: &syn::Block, ty: &str, variant: &str, field: &str) -> Vec<String> {
+    let mut v = StructLits { ty, variant, field, found: vec![] };
+    syn::visit::Visit::visit_block(&mut v, block);
+    v.found
+}
+
+fn struct_lits_file(file: &syn::File, ty: &str, variant: &str, field: &str) -> Vec<String> {
+    let mut v = StructLits { ty, variant, field, found: vec![] };
+    for it in &file.items {
+        let hook = match it {
+            syn::Item::Fn(f) => is_hook(&f.attrs),
+            syn::Item::Impl(i) => is_hook(&i.attrs),
+            syn::Item::Mod(m) => is_hook(&m.attrs),
+            _ => false,
+        };
+        if !hook {
+            syn::visit::Visit::visit_item(&mut v, it);
+        }
+    }
+    v.found
+}
+
+/// the variant names a pattern `P::A { .. } | P::B(..)` admits (head path's last segment)
+fn pat_variants(p: &Pat, out: &mut Vec<String>) -> Result<(), String> {
+    match p {
+        Pat::Struct(s) => out.push(s.path.segments.last().map(|x| x.ident.to_string()).unwrap_or_default()),
+        Pat::TupleStruct(s) => out.push(s.path.segments.last().map(|x| x.ident.to_string()).unwrap_or_default()),
+        Pat::Path(s) => out.push(s.path.segments.last().map(|x| x.ident.to_string()).unwrap_or_default()),
+        Pat::Or(o) => {
+            for c in &o.cases {
+                pat_variants(c, out)?;
+            }
+        }
+        Pat::Paren(q) => pat_variants(&q.pat, out)?,
+        other => return Err(format!("pattern `{}` outside the model", toks(other))),
+    }
+    Ok(())
+}
+
+/// `gatetab` → `Generated/GateTab.lean`: the way from a declaration of a
+/// script to an entry of `Module::functions` (the table `get_function`
+/// consults), stage by stage:
+///  * `Mir::lower` (`tree`): which `ast::Declaration` variants are lowered, by
+///    which method, and what kind of item each method builds;
+///  * `lir::lower` (`item`): `match item.ty` — a MIR function becomes an
+///    `ItemKind::Function { signature: Some(signature) }`, a MIR constant an
+///    `ItemKind::Constant`; the generated clone/drop/eq items carry
+///    `signature: None` and names `::generated::…`;
+///  * `ModuleBuilder::declare_function`: the `let … else { return; }` that
+///    only lets `ItemKind::Function` through, and the one
+///    `self.functions.insert(name.to_string(), FunctionInfo { …, signature: signature.clone() })`;
+///    every other mention of the field `functions` in src/codegen/mod.rs is a read.
+fn gatetab(repo: &Path) -> R {
+    // ---- stage 1: src/mir/lower.rs
+    let mir = find::parse(repo, "src/mir/lower.rs")?;
+    let tree = find::func(&mir, "tree", None)?;
+    let ms = find::matches_on(&tree.block, "d");
+    let [m] = &ms[..] else {
+        return Err(format!("Mir::lower (`tree`): expected one `match d`, found {}", ms.len()));
+    };
+    let mut mir_arms: Vec<(String, String)> = vec![];
+    let mut wildcard = false;
+    for arm in &m.arms {
+        if arm.guard.is_some() {
+            return Err("Mir::lower: a guarded arm over the declarations is outside the model".into());
+        }
+        if let Pat::Wild(_) = &arm.pat {
+            if toks(&arm.body) != "{}" {
+                return Err(format!("Mir::lower: the wildcard arm is not empty: `{}`", toks(&arm.body)));
+            }
+            wildcard = true;
+            continue;
+        }
+        let mut vs = vec![];
+        pat_variants(&arm.pat, &mut vs)?;
+        let Pat::TupleStruct(ts) = &arm.pat else {
+            return Err(format!("Mir::lower: arm pattern `{}` outside the model", toks(&arm.pat)));
+        };
+        let binder = ts.elems.first().map(toks).unwrap_or_default();
+        // the body: `{ items.insert(<name>, Lowerer::new(…).<method>(<binder>)); }`
+        let Expr::Block(b) = &*arm.body else {
+            return Err(format!("Mir::lower: arm for {vs:?} is not a block"));
+        };
+        let [Stmt::Expr(Expr::MethodCall(ins), _)] = &b.block.stmts[..] else {
+            return Err(format!("Mir::lower: arm for {vs:?}: expected the single statement `items.insert(…)`"));
+        };
+        if toks(&ins.receiver) != "items" || ins.method != "insert" || ins.args.len() != 2 {
+            return Err(format!("Mir::lower: arm for {vs:?}: expected `items.insert(name, item)`"));
+        }
+        if toks(&ins.args[0]) != format!("type_info.resolved_name(&{binder}.ident)") {
+            return Err(format!("Mir::lower: arm for {vs:?}: item keyed by `{}`", toks(&ins.args[0])));
+        }
+        let Expr::MethodCall(low) = &ins.args[1] else {
+            return Err(format!("Mir::lower: arm for {vs:?}: the item is not `Lowerer::new(…).<method>(…)`"));
+        };
+        if !toks(&low.receiver).starts_with("Lowerer::new(") || low.args.len() != 1 || toks(&low.args[0]) != binder {
+            return Err(format!("Mir::lower: arm for {vs:?}: `{}` outside the model", toks(&ins.args[1])));
+        }
+        for v in vs {
+            mir_arms.push((v, low.method.to_string()));
+        }
+    }
+    if !wildcard {
+        // without `_ => {}` the match is exhaustive: every variant must be listed, which rustc checks
+    }
+    let decl_variants = find::enum_variants(&find::parse(repo, "src/ast.rs")?, "Declaration")?;
+    // what each lowering method builds
+    let mut mir_kinds: Vec<(String, String, String)> = vec![];
+    let fl = find::func(&mir, "function_like", None)?;
+    let fl_fn = struct_lits(&fl.block, "ItemKind", "Function", "signature");
+    let fl_c = struct_lits(&fl.block, "ItemKind", "Constant", "ty");
+    if fl_fn != ["signature"] || !fl_c.is_empty() {
+        return Err(format!("mir function_like: expected exactly one `ItemKind::Function {{ signature, .. }}` (found {fl_fn:?}, constants {fl_c:?})"));
+    }
+    let fl_s = toks(&fl.block);
+    require(&fl_s, "letsignature=Signature{types:Vec::new(),parameter_types:parameter_types.iter().map(|x|&x.1).cloned().collect(),return_type:return_type.clone(),};", "mir function_like: the signature handed on")?;
+    require(&fl_s, "letname=self.type_info.resolved_name(ident);letname=self.type_info.full_name(&name);", "mir function_like: the item's name")?;
+    let mut methods: Vec<String> = mir_arms.iter().map(|a| a.1.clone()).collect();
+    methods.sort();
+    methods.dedup();
+    for meth in &methods {
+        let f = find::func(&mir, meth, None)?;
+        let s = toks(&f.block);
+        let direct_fn = struct_lits(&f.block, "ItemKind", "Function", "signature");
+        let direct_c = struct_lits(&f.block, "ItemKind", "Constant", "ty");
+        let via_fl = s.matches("self.function_like(").count();
+        // the prefix a method puts before the identifier: `format!("test#{}", …)`
+        let mut prefix = String::new();
+        if let Some(i) = s.find("format!(\"") {
+            let rest = &s[i + 9..];
+            if let Some(j) = rest.find("{}\"") {
+                prefix = rest[..j].to_string();
+            }
+        }
+        let kind = match (via_fl, direct_fn.len(), direct_c.len()) {
+            (1, 0, 0) => {
+                let Ok(Expr::MethodCall(t)) = find::tail_expr(&f.block) else {
+                    return Err(format!("mir {meth}: `self.function_like(…)` is not the value of the method"));
+                };
+                if t.method != "function_like" {
+                    return Err(format!("mir {meth}: tail is `{}`", toks(t)));
+                }
+                "Function"
+            }
+            (0, 0, 1) => {
+                require(&s, "letresolved_name=self.type_info.resolved_name(&constant.ident);letname=self.type_info.full_name(&resolved_name);", "mir constant: the item's name")?;
+                prefix.clear(); // `constant#…` only names the lowerer's scope, the item is `full_name(resolved_name(ident))`
+                "Constant"
+            }
+            other => return Err(format!("mir {meth}: builds items in a way outside the model {other:?}")),
+        };
+        mir_kinds.push((meth.clone(), kind.to_string(), prefix));
+    }
+
+    // the signature each lowering method hands to `function_like` (it becomes the table's signature):
+    // a test has no parameters and returns `Type::verdict(Type::unit(), Type::unit())`; a function and a
+    // filtermap return what their declared / inferred signature says
+    let mut ret_sources: Vec<(String, String)> = vec![];
+    for (meth, _, _) in mir_kinds.iter().filter(|k| k.1 == "Function") {
+        let f = find::func(&mir, meth, None)?;
+        let s = toks(&f.block);
+        let src = if s.contains("letreturn_type=Type::verdict(Type::unit(),Type::unit());letparams=ast::Params(Vec::new());self.function_like(&ident,&params,&return_type,&test.body)") {
+            "verdict(unit,unit)"
+        } else if s.contains("letsignature=self.type_info.function_signature(ident);self.function_like(ident,params,&signature.return_type,body)") {
+            "function_signature(ident).return_type"
+        } else if s.contains("letDeclarationKind::Function(Some(func_dec))=dec.kindelse{ice!();};letret=&func_dec.signature.return_type;self.function_like(&function.ident,&function.params,ret,&function.body,)") {
+            "declaration.signature.return_type"
+        } else {
+            return Err(format!("mir {meth}: the return type handed to function_like is outside the model: `{}`", &s[..s.len().min(300)]));
+        };
+        ret_sources.push((meth.clone(), src.to_string()));
+    }
+    let types_rs = find::parse(repo, "src/typechecker/types.rs")?;
+    let verdict_body = toks(&find::func(&types_rs, "verdict", Some("Type"))?.block);
+    let unit_body = toks(&find::func(&types_rs, "unit", Some("Type"))?.block);
+    if verdict_body != "{Type::named(\"Verdict\",vec![a.borrow().clone(),b.borrow().clone()])}" || unit_body != "{Type::Unit}" {
+        return Err(format!("Type::verdict / Type::unit outside the model: `{verdict_body}` / `{unit_body}`"));
+    }
+
+    // ---- stage 2: src/lir/lower.rs and the helper generators
+    let lir = find::parse(repo, "src/lir/lower.rs")?;
+    let item = find::func(&lir, "item", None)?;
+    let kms = find::matches_on(&item.block, "item.ty");
+    // the second `match item.ty` (by value) builds the kind; the first (`&item.ty`) only picks the return type
+    let Some(km) = kms.iter().find(|m| m.arms.iter().any(|a| !struct_lits_expr(&a.body, "ItemKind", "Function", "signature").is_empty())) else {
+        return Err("lir item: no `match item.ty` that builds `ItemKind::Function`".into());
+    };
+    let mut lir_arms: Vec<(String, String, bool)> = vec![];
+    for arm in &km.arms {
+        let mut vs = vec![];
+        pat_variants(&arm.pat, &mut vs)?;
+        let fs = struct_lits_expr(&arm.body, "ItemKind", "Function", "signature");
+        let cs = struct_lits_expr(&arm.body, "ItemKind", "Constant", "ty");
+        let (to, has_sig) = match (&fs[..], &cs[..]) {
+            ([sig], []) if sig == "Some(signature)" => {
+                // `signature` must be the field of the MIR item bound by this arm's pattern
+                let Pat::Struct(ps) = &arm.pat else { return Err("lir item: Function arm pattern".into()) };
+                let bound = ps.fields.iter().any(|f| f.member.to_token_stream().to_string() == "signature" && toks(&f.pat) == "signature");
+                if !bound {
+                    return Err("lir item: `signature` is not the MIR item's signature".into());
+                }
+                ("Function", true)
+            }
+            ([], [_]) => ("Constant", false),
+            other => return Err(format!("lir item: arm for {vs:?} builds {other:?}: outside the model")),
+        };
+        for v in vs {
+            lir_arms.push((v, to.to_string(), has_sig));
+        }
+    }
+    require(&toks(&item.block), "letname=item.name;", "lir item: the LIR item keeps the MIR item's name")?;
+    let all_fn = struct_lits_file(&lir, "ItemKind", "Function", "signature");
+    if all_fn != ["Some(signature)"] {
+        return Err(format!("src/lir/lower.rs: `ItemKind::Function` built at other places than `item`: {all_fn:?}"));
+    }
+    let mut helper_items: Vec<(String, bool)> = vec![];
+    let dir = repo.join("src/lir/lower");
+    let mut files: Vec<String> = std::fs::read_dir(&dir)
+        .map_err(|e| format!("{}: {e}", dir.display()))?
+        .filter_map(|e| e.ok())
+        .map(|e| e.file_name().to_string_lossy().to_string())
+        .filter(|n| n.ends_with(".rs"))
+        .collect();
+    files.sort();
+    for fname in files {
+        let rel = format!("src/lir/lower/{fname}");
+        let f = find::parse(repo, &rel)?;
+        let sigs = struct_lits_file(&f, "ItemKind", "Function", "signature");
+        if !struct_lits_file(&f, "ItemKind", "Constant", "ty").is_empty() {
+            return Err(format!("{rel}: builds an `ItemKind::Constant`: outside the model"));
+        }
+        if sigs.is_empty() {
+            continue;
+        }
+        if sigs != ["None"] {
+            return Err(format!("{rel}: generated items with signatures {sigs:?}: outside the model (expected one item with `signature: None`)"));
+        }
+        // its name: `let ident = format!("::generated::<op>_{type_id}").into();` … `Item { name: ident, … }`
+        let names = struct_lits_file(&f, "", "Item", "name");
+        let text = toks(&f);
+        let mut prefix = None;
+        if let Some(i) = text.find("letident=format!(\"") {
+            let rest = &text[i + 18..];
+            if let Some(j) = rest.find("{type_id}\").into();") {
+                prefix = Some(rest[..j].to_string());
+            }
+        }
+        let (Some(prefix), true) = (prefix, names == ["ident"]) else {
+            return Err(format!("{rel}: the name of the generated item is outside the model (names {names:?})"));
+        };
+        helper_items.push((prefix, false));
+    }
+    // other files of src/lir must not build items at all
+    for extra in ["src/lir/mod.rs", "src/lir/eval.rs", "src/lir/value.rs", "src/lir/print.rs"] {
+        if let Ok(f) = find::parse(repo, extra) {
+            if !struct_lits_file(&f, "ItemKind", "Function", "signature").is_empty() {
+                return Err(format!("{extra}: builds an `ItemKind::Function`: outside the model"));
+            }
+        }
+    }
+    let lir_kinds = find::enum_variants(&find::parse(repo, "src/lir/mod.rs")?, "ItemKind")?;
+
+    // ---- stage 3: src/codegen/mod.rs
+    let cg = find::parse(repo, "src/codegen/mod.rs")?;
+    let df = find::func(&cg, "declare_function", Some("ModuleBuilder"))?;
+    let stmts: Vec<&Stmt> = df.block.stmts.iter().filter(|s| !matches!(s, Stmt::Local(l) if is_hook(&l.attrs))).collect();
+    let Some(Stmt::Local(first)) = stmts.first().copied() else {
+        return Err("declare_function: does not begin with the destructuring `let lir::Item { … } = func else { return; };`".into());
+    };
+    let (Some(init), Pat::Struct(item_pat)) = (&first.init, &first.pat) else {
+        return Err("declare_function: first statement is not a destructuring of the item".into());
+    };
+    if toks(&init.expr) != "func" || item_pat.path.segments.last().is_none_or(|s| s.ident != "Item") {
+        return Err(format!("declare_function: first statement destructures `{}`", toks(&init.expr)));
+    }
+    let Some((_, div)) = &init.diverge else {
+        return Err("declare_function: the destructuring of the item has no `else { return; }`: every kind of item reaches `functions.insert` (a constant's initialiser would become retrievable)".into());
+    };
+    if toks(div) != "{return;}" {
+        return Err(format!("declare_function: the else branch is `{}`", toks(div)));
+    }
+    let mut accepts = vec![];
+    let mut binds_signature = false;
+    let mut binds_name = false;
+    for fp in &item_pat.fields {
+        match fp.member.to_token_stream().to_string().as_str() {
+            "kind" => {
+                pat_variants(&fp.pat, &mut accepts)?;
+                if let Pat::Struct(kp) = &*fp.pat {
+                    binds_signature = kp.fields.iter().any(|f| f.member.to_token_stream().to_string() == "signature" && toks(&f.pat) == "signature");
+                }
+            }
+            "name" => binds_name = toks(&fp.pat) == "name",
+            _ => {}
+        }
+    }
+    if accepts.is_empty() || !binds_signature || !binds_name {
+        return Err(format!("declare_function: the pattern must bind `name` and `kind: ItemKind::… {{ signature, .. }}` (accepts {accepts:?})"));
+    }
+    // the one insertion, a top-level statement; no other way out of the function
+    let mut inserts = 0;
+    for s in &stmts[1..] {
+        let t = toks(*s);
+        if t.starts_with("self.functions.insert(") {
+            let Stmt::Expr(Expr::MethodCall(mc), _) = s else { return Err("declare_function: insert shape".into()) };
+            if mc.args.len() != 2 || toks(&mc.args[0]) != "name.to_string()" {
+                return Err(format!("declare_function: entry keyed by `{}`", mc.args.first().map(toks).unwrap_or_default()));
+            }
+            let Expr::Struct(fi) = &mc.args[1] else { return Err("declare_function: the entry is not a `FunctionInfo { … }` literal".into()) };
+            let field = |n: &str| fi.fields.iter().find(|f| f.member.to_token_stream().to_string() == n).map(|f| toks(&f.expr));
+            if path_str(&fi.path) != "FunctionInfo" || field("signature").as_deref() != Some("signature.clone()") || field("id").as_deref() != Some("func_id") {
+                return Err(format!("declare_function: entry `{}` outside the model", toks(&mc.args[1])));
+            }
+            inserts += 1;
+        } else if s.to_token_stream().into_iter().any(|tt| tt.to_string() == "return") || t.contains("else{") && t.contains("return") {
+            return Err(format!("declare_function: statement `{t}` may leave the function before the insertion"));
+        }
+    }
+    if inserts != 1 {
+        return Err(format!("declare_function: expected one top-level `self.functions.insert(…)`, found {inserts}"));
+    }
+    // every mention of the field `functions` in the file, classified
+    let mut uses: Vec<(String, usize)> = vec![];
+    let mut bump = |k: &str| match uses.iter_mut().find(|u| u.0 == k) {
+        Some(u) => u.1 += 1,
+        None => uses.push((k.to_string(), 1)),
+    };
+    for it in &cg.items {
+        let hook = match it {
+            syn::Item::Fn(f) => is_hook(&f.attrs),
+            syn::Item::Impl(i) => is_hook(&i.attrs),
+            _ => false,
+        };
+        if hook {
+            continue;
+        }
+        let mut tk = vec![];
+        flat_tokens(it.to_token_stream(), &mut tk);
+        for i in 0..tk.len() {
+            if tk[i] != "functions" {
+                continue;
+            }
+            let prev = if i > 0 { tk[i - 1].as_str() } else { "" };
+            let next = tk.get(i + 1).map(|s| s.as_str()).unwrap_or("");
+            let next2 = tk.get(i + 2).map(|s| s.as_str()).unwrap_or("");
+            let after: String = tk[i + 1..(i + 8).min(tk.len())].concat();
+            let kind = match (prev, next) {
+                (".", ".") if ["get", "keys", "insert"].contains(&next2) => next2.to_string(),
+                (".", "[") => "index".to_string(),
+                (_, ":") if after.starts_with(":HashMap<String,FunctionInfo>") => "field".to_string(),
+                (_, ":") if after.starts_with(":HashMap::new()") => "new".to_string(),
+                (_, ":") if after.starts_with(":self.functions") => "move".to_string(),
+                (".", ",") | (".", "}") if i >= 2 && tk[i - 2] == "self" => "moved".to_string(),
+                _ => {
+                    let ctx: String = tk[i.saturating_sub(4)..(i + 6).min(tk.len())].join(" ");
+                    return Err(format!("src/codegen/mod.rs: use of the field `functions` outside the model: `… {ctx} …`"));
+                }
+            };
+            bump(&kind);
+        }
+    }
+    let n_insert = uses.iter().find(|u| u.0 == "insert").map(|u| u.1).unwrap_or(0);
+    if n_insert != 1 {
+        return Err(format!("src/codegen/mod.rs: {n_insert} insertions into `functions` (expected the one of declare_function)"));
+    }
+    uses.sort();
+
+    // ---- output
+    let pairs = |v: &[(String, String)]| v.iter().map(|(a, b)| format!("({}, {})", lit_ident(a), lit_ident(b))).collect::<Vec<_>>().join(",\n  ");
+    let mut out = String::new();
+    out.push_str("/- GENERATED by /verif/extract from src/mir/lower.rs, src/lir/lower.rs, src/lir/lower/*.rs, src/codegen/mod.rs — do not edit. -/\nimport RotoV.Model.GateTab\nnamespace RotoV.Gen.GateTab\nopen RotoV.Gate RotoV.GateTab\n\n");
+    out.push_str(&format!("/-- variants of `ast::Declaration` -/\ndef declVariants : List Ident := [{}]\n\n", decl_variants.iter().map(|v| lit_ident(v)).collect::<Vec<_>>().join(", ")));
+    out.push_str(&format!("/-- `Mir::lower`: (declaration variant, lowering method); wildcard arm `_ => {{}}` present: {wildcard} -/\ndef mirArms : List (Ident × Ident) := [\n  {}]\n\n", pairs(&mir_arms)));
+    out.push_str(&format!(
+        "/-- (lowering method, `mir::ItemKind` variant it builds, prefix before the identifier) -/\ndef mirKinds : List (Ident × Ident × Ident) := [\n  {}]\n\n",
+        mir_kinds.iter().map(|(a, b, c)| format!("({}, {}, {})", lit_ident(a), lit_ident(b), lit_ident(c))).collect::<Vec<_>>().join(",\n  ")
+    ));
+    out.push_str(&format!(
+        "/-- `lir::lower`: (`mir::ItemKind` variant, `lir::ItemKind` variant, carries `signature: Some(signature)`) -/\ndef lirArms : List (Ident × Ident × Bool) := [\n  {}]\n\n",
+        lir_arms.iter().map(|(a, b, c)| format!("({}, {}, {c})", lit_ident(a), lit_ident(b))).collect::<Vec<_>>().join(",\n  ")
+    ));
+    out.push_str(&format!(
+        "/-- generated helper items: (name prefix, carries a signature) -/\ndef helperItems : List (Ident × Bool) := [\n  {}]\n\n",
+        helper_items.iter().map(|(a, b)| format!("({}, {b})", lit_ident(a))).collect::<Vec<_>>().join(",\n  ")
+    ));
+    out.push_str(&format!("/-- variants of `lir::ItemKind` -/\ndef lirItemKinds : List Ident := [{}]\n\n", lir_kinds.iter().map(|v| lit_ident(v)).collect::<Vec<_>>().join(", ")));
+    out.push_str(&format!("/-- variants of `lir::ItemKind` that `declare_function` lets through to `functions.insert` -/\ndef declareAccepts : List Ident := [{}]\n\n", accepts.iter().map(|v| lit_ident(v)).collect::<Vec<_>>().join(", ")));
+    out.push_str(&format!(
+        "/-- every mention of the field `functions` in src/codegen/mod.rs, by kind -/\ndef functionsFieldUses : List (String × Nat) := [{}]\n\n",
+        uses.iter().map(|(k, n)| format!("({k:?}, {n})")).collect::<Vec<_>>().join(", ")
+    ));
+    out.push_str(&format!(
+        "/-- where the return type of the signature handed on by each function-like lowering method comes from -/\ndef returnTypeSources : List (Ident × Ident) := [\n  {}]\n\n",
+        pairs(&ret_sources)
+    ));
+    if ret_sources.iter().any(|r| r.1 == "verdict(unit,unit)") {
+        out.push_str("/-- the signature `Mir::lower` gives a test: no parameters, `Type::verdict(Type::unit(), Type::unit())` = `Type::named(\"Verdict\", vec![Type::Unit, Type::Unit])` -/\ndef testSig : Signature := ⟨[], RotoTy.named ");
+        out.push_str(&lit_ident("Verdict"));
+        out.push_str(" [RotoTy.unit, RotoTy.unit]⟩\n\n");
+    }
+    out.push_str("def pipeline : Pipeline := ⟨mirArms, mirKinds, lirArms, helperItems, declareAccepts⟩\n\nend RotoV.Gen.GateTab\n");
+    Ok(out)
+}
+
+fn struct_lits_expr(e: &Expr, ty: &str, variant: &str, field: &str) -> Vec<String> {
+    let mut v = StructLits { ty, variant, field, found: vec![] };
+    syn::visit::Visit::visit_expr(&mut v, e);
+    v.found
 }
